@@ -142,16 +142,20 @@ def read(text, firmware=False):
 
 
 # strict grammar of a synthesised command: one code, single spaces, LETTER + plain decimal
-_WF = re.compile(r"^[GM](0|[1-9]\d*)(\.\d+)?( [A-Z](-?(\d+\.?\d*|\.\d+))?)*$")
-_WORD = re.compile(r" ([A-Z])(-?(?:\d+\.?\d*|\.\d+))?")
+# one G/M code, then letter words with an optional plain-decimal number; spacing, case and an explicit '+' are free
+_WF = re.compile(r"^\s*[GMgm]\d+(\.\d+)?(\s*[A-Za-z]\s*([-+]?(\d+\.?\d*|\.\d+))?)*\s*$")
+_WORD = re.compile(r"\s*([A-Za-z])\s*([-+]?(?:\d+\.?\d*|\.\d+))?")
 
 
 def wellformed(text):
     """(ok, reason, words) for the strict C07 grammar."""
     if not _WF.match(text):
         return False, "does not match the plain-decimal command grammar", []
-    words = _WORD.findall(text)
+    m0 = re.match(r"^\s*[GMgm]\d+(\.\d+)?", text)
+    words = [(l.upper(), v) for l, v in _WORD.findall(text[m0.end():])]
     letters = [w[0] for w in words]
+    if any(l in "GM" for l in letters):
+        return False, "more than one G/M code in a generated command", words
     if len(set(letters)) != len(letters):
         return False, "repeated parameter letter", words
     for l, v in words:
@@ -184,5 +188,6 @@ def selftest():
     assert c.code == "G38" and c.sub == 2
     assert read("; comment") is None and read("@ExcludeRegion off") is None
     assert wellformed("G92 E1.5")[0] and wellformed("G0 F3000.0 X1.0 Y-2.5")[0] and wellformed("G10")[0]
-    assert not wellformed("G92 E1e-05")[0] and not wellformed("G0 X1 X2")[0] and not wellformed("G0  X1")[0]
-    assert not wellformed("G0 Xinf")[0] and not wellformed("G0 Xnan")[0] and wellformed("M205 X Y5")[0]
+    assert not wellformed("G92 E1e-05")[0] and not wellformed("G0 X1 X2")[0] and wellformed("G0  X1")[0] and wellformed("g0x+1.5y.5")[0]
+    assert not wellformed("G0 X1 x2")[0] and not wellformed("G0 G1 X1")[0] and not wellformed("X1")[0] and not wellformed("G0 X1,5")[0]
+    assert wellformed("M205 X Y5")[0] and not wellformed("G0 X1.5.2")[0] and not wellformed("G0 X--1")[0]
